@@ -9,3 +9,16 @@ Definition add_flags (f x : Z) : Z := u16 (Z.lor f x).
 Definition clear_flags (f x : Z) : Z := u16 (Z.land f (Z.lnot x)).
 Definition clear_flags_pinned (f x : Z) : Z := u16 (Z.lor f (Z.lnot x)).
 Definition has_flag (f x : Z) : bool := negb (Z.land f x =? 0).
+
+(* the flag values (SectionFlags, CopySectionFlags) and the built-in .text section's flag word; compared with /repo's headers on
+   every run (coq/gen/C10Consts.v, Properties_C10.C10_constants_match) *)
+Definition F_EXECUTABLE : Z := 1.
+Definition F_READONLY : Z := 2.
+Definition F_ZEROINIT : Z := 4.
+Definition F_COMMENT : Z := 8.
+Definition F_BUILTIN : Z := 16384.
+Definition F_IMPLICIT : Z := 32768.
+Definition TEXT_FLAGS : Z := Z.lor F_EXECUTABLE (Z.lor F_READONLY F_BUILTIN).
+Definition COPY_PAD_SECTION : Z := 1.
+Definition COPY_PAD_TARGET : Z := 2.
+Definition copy_flag (fl bit : Z) : bool := negb (Z.land fl bit =? 0).
